@@ -50,7 +50,9 @@ def mk_pct(a):
 
 ATOMS = [("num", 7), ("num", 2.5), ("num", 0), ("num", 1.25e-7), ("num", 1e22), ("num", 123456789.25), ("str", 'a"b'), ("str", ""),
          ("str", "x,y)"), ("bool", True), ("bool", False), ("ref", 0, 0, False, False), ("ref", 2, 1, True, True), ("date", 86400 * 400),
-         ("ref", 1, 2, True, False)]
+         ("ref", 1, 2, True, False),
+         # literals that need 16 or 17 significant digits to be read back as the same double
+         ("num", 3.141592653589793), ("num", 0.30000000000000004), ("num", 1234.5678901234567), ("num", 9007199254740993.0 / 4096)]
 
 
 def gen_all(depth):
